@@ -49,8 +49,11 @@ Proof.
   rewrite (sumQ_ext (fun t => sumQ (fun u => w u t / s) K * sumQ (fun v => w t v / s) K)
                     (fun t => (sumQ (fun u => w u t) K * sumQ (fun v => w t v) K) * (/ s * / s))).
   - rewrite sumQ_scal_r. unfold Qdiv. ring.
-  - intros t Ht. unfold Qdiv. rewrite !sumQ_scal_r. ring.
+  - intros t Ht. unfold Qdiv. rewrite (sumQ_scal_r (/ s) (fun u => w u t) K), (sumQ_scal_r (/ s) (fun v => w t v) K). ring.
 Qed.
+
+Lemma closing_s_comp K w g s s' : s == s' -> closing K w g s == closing K w g s'.
+Proof. intros H. rewrite !closing_closing_raw. unfold closing_raw. rewrite H. reflexivity. Qed.
 
 Lemma closing_ext K w w' g s : (forall u t, (u < K)%nat -> (t < K)%nat -> w u t == w' u t) ->
   closing K w g s == closing K w' g s.
@@ -178,9 +181,9 @@ Proof.
   assert (H0 : forall i j, (i < n)%nat -> (j < n)%nat -> sW0 p i j == pospart W i j) by (intros; apply tabQ_spec; auto).
   assert (H1 : forall i j, (i < n)%nat -> (j < n)%nat -> sW1 p i j == negpart W i j) by (intros; apply tabQ_spec; auto).
   assert (Hs0 : sym_on n (sW0 p)).
-  { intros i j Hi Hj. rewrite (H0 i j Hi Hj), (H0 j i Hj Hi). apply pospart_sym; auto. }
+  { intros i j Hi Hj. rewrite (H0 i j Hi Hj), (H0 j i Hj Hi). exact (pospart_sym n W Hs i j Hi Hj). }
   assert (Hs1 : sym_on n (sW1 p)).
-  { intros i j Hi Hj. rewrite (H1 i j Hi Hj), (H1 j i Hj Hi). apply negpart_sym; auto. }
+  { intros i j Hi Hj. rewrite (H1 i j Hi Hj), (H1 j i Hj Hi). exact (negpart_sym n W Hs i j Hi Hj). }
   assert (E0 : stot n (sW0 p) == stot n (pospart W)) by (apply stot_ext; exact H0).
   assert (E1 : stot n (sW1 p) == stot n (negpart W)) by (apply stot_ext; exact H1).
   rewrite (closing_outer_eq_Qhalf n (sW0 p) (fst kn) g (ss0 p) lb Hs0).
@@ -254,9 +257,9 @@ Proof.
   intros H1 H2.
   rewrite <- (q_closing_dir_eq_def K K2 (agg n W lb1) g lb2 H2).
   rewrite <- (q_closing_dir_eq_def n K2 W g _ (lab_lt_comp n K K2 lb1 lb2 H1 H2)).
-  rewrite !closing_closing_raw. rewrite (stot_agg n K W lb1 H1).
-  rewrite (closing_raw_ext K2 _ (agg n W (fun i => lb2 (lb1 i)))); [reflexivity|].
-  intros u t _ _. apply agg_compose; exact H1.
+  transitivity (closing K2 (agg K (agg n W lb1) lb2) g (stot n W)).
+  - apply closing_s_comp. apply stot_agg; exact H1.
+  - apply closing_ext. intros u t _ _. apply agg_compose; exact H1.
 Qed.
 
 Theorem aggregate_preserves_Qhalf n K K2 W g s lb1 lb2 : lab_lt n K lb1 -> lab_lt K K2 lb2 ->
@@ -282,7 +285,8 @@ Corollary level_pair_consistent n K K2 W g lb1 lb2 : lab_lt n K lb1 -> lab_lt K 
   closing K2 (agg K (agg n W lb1) lb2) g (stot n W) == Qdir n W g (fun i => lb2 (lb1 i)).
 Proof.
   intros H1 H2. rewrite <- (aggregate_preserves_Q n K K2 W g lb1 lb2 H1 H2).
-  rewrite <- (stot_agg n K W lb1 H1). apply q_closing_dir_eq_def; exact H2.
+  rewrite <- (q_closing_dir_eq_def K K2 (agg n W lb1) g lb2 H2).
+  apply closing_s_comp. symmetry. apply stot_agg; exact H1.
 Qed.
 
 (* Q depends on the partition only (so relabelling 1..k does not change it) *)
@@ -327,7 +331,9 @@ Qed.
 Theorem given_partition_returns_Q_dir n A g lb : given_dir n A g lb == Qdir n A g lb.
 Proof.
   unfold given_dir. cbv zeta. rewrite Qdir_spec.
-  set (b := fun i j => A i j - g * sumQ (fun t => A i t) n * sumQ (fun t => A t j) n / stot n A).
+  pose (b := fun i j => A i j - g * sumQ (fun t => A i t) n * sumQ (fun t => A t j) n / stot n A).
+  change (sum2Q (fun i j => (A i j - g * sumQ (fun t => A i t) n * sumQ (fun t => A t j) n / stot n A) * delta lb i j) n)
+    with (sum2Q (fun i j => b i j * delta lb i j) n).
   rewrite (sum2R_ext_Q _ (fun i j => ((1 # 2) * / stot n A) * (delta lb i j * b i j) +
                                     ((1 # 2) * / stot n A) * (delta lb j i * b j i))).
   - rewrite sum2Q_add, !sum2Q_scal. rewrite (sum2Q_transpose (fun i j => delta lb i j * b i j) n).
@@ -413,4 +419,23 @@ Proof.
   destruct (bisect_blocks fuel split (seq 0 n) Hg Hne) as [F P]. fold ls in F, P.
   destruct (ls2ci_labels n ls F P) as [R1 R2].
   split; [exact R1|]. split; [exact R2|]. split; intros; [apply given_partition_returns_Q_und|apply given_partition_returns_Q_dir].
+Qed.
+
+(* ---------- modularity_louvain_dir AS IT IS: the returned q is not the modularity of the returned partition ---------- *)
+Definition all_gains_pos (r : result_t) : bool :=
+  forallb (fun lv : level_t => forallb (fun m => Qltb 0 (fst m)) (fst lv)) (fst r).
+Definition ret_q (r : result_t) : Q := fst (snd (snd r)).
+Definition ret_qdef (r : result_t) : Q := fst (snd (snd (snd r))).
+Definition ret_qstart (r : result_t) : Q := snd (snd (snd (snd r))).
+(* the statement that holds for the other routines and FAILS here *)
+Definition louvain_dir_q_full_statement : Prop :=
+  forall rows g lv, let r := run_louvain_dir rows g lv in all_gains_pos r = true -> ret_q r == ret_qdef r.
+
+(* witness: W = [[0,1,2],[0,0,2],[0,1,0]], gamma = 1, the move sequence recorded from the implementation (seed 914):
+   three levels, every replayed gain positive, returned q = 5/36, definitional Q of the returned labels (1,1,1) = 0 *)
+Lemma louvain_dir_q_refuted : ~ louvain_dir_q_full_statement.
+Proof.
+  intros H.
+  specialize (H [[0; 1; 2]; [0; 0; 2]; [0; 1; 0]] 1 [[(2, 1); (0, 2)]; [(0, 2); (1, 2)]; [(0, 2)]]%nat).
+  vm_compute in H. specialize (H eq_refl). discriminate H.
 Qed.
